@@ -42,8 +42,8 @@ type Ev struct {
 	Name  string   `json:"name"`  // emitter: task/flow name as reported
 	Same  bool     `json:"same"`  // emit FlowError/ParallelError: the error is the one returned (filled at ret)
 	CtxOK bool     `json:"ctxok"` // the unit received the directive's context
-	Prog  *Prog    `json:"prog"`  // reset: the abstract program
-	Sc    *Scen    `json:"sc"`    // reset: the scenario
+	Prog  *Prog    `json:"prog,omitempty"` // reset: the abstract program
+	Sc    *Scen    `json:"sc,omitempty"` // reset: the scenario
 	Note  string   `json:"note"`
 }
 
@@ -128,23 +128,7 @@ func NewX(exec int, p *Prog, s *Scen) *X {
 		x.units[p.Units[i].ID] = &p.Units[i]
 	}
 	base := context.WithValue(context.Background(), ctxKey{}, x)
-	if s.Cancel == "deadline" {
-		x.add(Ev{Ev: "cancel_begin"})
-		x.cbegun = true
-		x.ctx, x.cancel = context.WithTimeout(base, time.Duration(s.CancelUs)*time.Microsecond)
-		go func(c context.Context) {
-			<-c.Done()
-			x.mu.Lock()
-			first := !x.cdone
-			x.cdone = true
-			x.mu.Unlock()
-			if first && atomic.LoadInt32(&x.over) == 0 {
-				x.add(Ev{Ev: "cancel"})
-			}
-		}(x.ctx)
-	} else {
-		x.ctx, x.cancel = context.WithCancel(base)
-	}
+	x.ctx, x.cancel = context.WithCancel(base)
 	return x
 }
 
@@ -202,6 +186,25 @@ func (x *X) Cancel() {
 func (x *X) Begin() {
 	x.caller = vt.GoID()
 	x.add(Ev{Ev: "reset", Prog: x.P, Sc: x.S, G: x.caller})
+	if x.S.Cancel == "deadline" {
+		// The context ends by its deadline: it may be done from now on; a watcher
+		// stamps the completion after Done() is closed.
+		x.add(Ev{Ev: "cancel_begin"})
+		x.cbegun = true
+		x.cancel()
+		base := context.WithValue(context.Background(), ctxKey{}, x)
+		x.ctx, x.cancel = context.WithTimeout(base, time.Duration(x.S.CancelUs)*time.Microsecond)
+		go func(c context.Context) {
+			<-c.Done()
+			x.mu.Lock()
+			first := !x.cdone
+			x.cdone = true
+			x.mu.Unlock()
+			if first && atomic.LoadInt32(&x.over) == 0 {
+				x.add(Ev{Ev: "cancel"})
+			}
+		}(x.ctx)
+	}
 	if x.S.Cancel == "before" {
 		x.Cancel()
 	}
@@ -243,6 +246,9 @@ func FBTok(u, i int) int { return 500000 + 1000*u + i + 1 }
 
 // ElemTok is the token of element i of collection c.
 func ElemTok(c, i int) int { return 20000 + 100*c + i }
+
+// IdxOf recovers the index of an element of collection c from its token.
+func IdxOf(c, tok int) int { return tok - ElemTok(c, 0) }
 
 // Sentinel is preloaded into every Results target.
 const Sentinel = -7
